@@ -120,6 +120,14 @@ def make_shape(rnd, tmp, k, focus=False):
         with open(sp, 'w', encoding='utf-8', newline='') as f:
             f.write(txt.replace('\n', '\r\n'))          # a settings file edited on Windows
         shape['crlf_settings'] = True
+    if rules.startswith('csv') and not shape.get('crlf_settings') and rnd.random() < (.4 if focus else .2):
+        # a merchants_file key without a value in the MIDDLE of settings.yaml (the loader treats it as not set): migration may append, never edit that line
+        sp = os.path.join(cfg, 'settings.yaml')
+        lines = open(sp, encoding='utf-8').read().split('\n')
+        lines.insert(1, rnd.choice(['merchants_file:', 'merchants_file: ~', 'merchants_file:   # todo', 'merchants_file: ""']))
+        with open(sp, 'w', encoding='utf-8') as f:
+            f.write('\n'.join(lines))
+        shape['empty_rules_key'] = True
     if not b['views'] and not shape.get('small_views') and not shape.get('crlf_settings') and rnd.random() < .3:
         # settings name a views file (possibly in a folder) that does not exist: commands warn, they do not create it
         with open(os.path.join(cfg, 'settings.yaml'), 'a', encoding='utf-8') as f:
